@@ -890,6 +890,200 @@ def client_login_facts(mod):
     }
 
 
+def _login_fn(mod):
+    login = None
+    for n in mod.tree.body:
+        if isinstance(n, ast.ClassDef) and "login" in methods_of(n):
+            if login is not None:
+                raise Unclassified("two login methods")
+            login = methods_of(n)["login"]
+    if login is None:
+        raise Unclassified("Client.login not found")
+    return login
+
+
+def client_login_program(mod):
+    """Client.login as a program (Lib/LogFacts.v login_prog), by shape:
+
+        code, info = await self.command(LIT + PARAM, (CODES...))
+        [CENSOR = CONST]...                                   (bound before the loop)
+        while code.matches(MASK):
+            [CENSOR = CONST]                                  (first statement: per-iteration reset)
+            if code == C1: CMD = LIT1 + PARAM1 [; CENSOR = CONST1]   (either order)
+            elif code == C2: ...
+            else: raise ...
+            code, info = await self.command(CMD, (CODES...), censor_after=CENSOR)
+
+    CONST is None or an int literal.  Any other statement that binds CMD, CENSOR or `code`, any other
+    shape of these statements, a censor variable that may be unbound when the command is sent: Unclassified.
+    """
+    login = _login_fn(mod)
+    args = {"user": "ArgUser", "password": "ArgPassword", "account": "ArgAccount"}
+    params = [a.arg for a in login.args.args]
+    for a in args:
+        if a not in params:
+            raise Unclassified(f"login has no `{a}` parameter")
+    body = list(login.body)
+    if body and isinstance(body[0], ast.Expr) and isinstance(body[0].value, ast.Constant) and isinstance(body[0].value.value, str):
+        body = body[1:]
+
+    def const(v):
+        """None / int literal -> model value (None = 0)"""
+        if isinstance(v, ast.Constant) and v.value is None:
+            return 0
+        if isinstance(v, ast.Constant) and isinstance(v.value, int) and not isinstance(v.value, bool):
+            return v.value
+        raise Unclassified(f"login: censor value {src(v)[:60]} is not a constant")
+
+    def lit_plus_param(e):
+        if (
+            isinstance(e, ast.BinOp) and isinstance(e.op, ast.Add) and isinstance(e.left, ast.Constant) and isinstance(e.left.value, str)
+            and isinstance(e.right, ast.Name) and e.right.id in args
+        ):
+            return e.left.value, args[e.right.id]
+        raise Unclassified(f"login: command built as {src(e)[:60]} (expected 'LITERAL' + parameter)")
+
+    def codes(e):
+        if isinstance(e, ast.Constant) and isinstance(e.value, str):
+            return [e.value]
+        if isinstance(e, (ast.Tuple, ast.List)) and all(isinstance(x, ast.Constant) and isinstance(x.value, str) for x in e.elts):
+            return [x.value for x in e.elts]
+        raise Unclassified(f"login: expected codes {src(e)[:60]} are not literals")
+
+    def command_call(st):
+        """`code, info = await self.command(A, CODES [, censor_after=X])` -> (A, codes, X or None)"""
+        if not (
+            isinstance(st, ast.Assign) and len(st.targets) == 1 and isinstance(st.targets[0], ast.Tuple)
+            and [src(t) for t in st.targets[0].elts] == ["code", "info"]
+            and isinstance(st.value, ast.Await) and isinstance(st.value.value, ast.Call) and src(st.value.value.func) == "self.command"
+        ):
+            raise Unclassified(f"login: expected `code, info = await self.command(...)`, found {src(st)[:60]}")
+        c = st.value.value
+        kw = {k.arg: k.value for k in c.keywords}
+        if None in kw or set(kw) - {"censor_after", "expected_codes"} or not (1 <= len(c.args) <= 2):
+            raise Unclassified(f"login: self.command call of unexpected form: {src(c)[:80]}")
+        exp = c.args[1] if len(c.args) == 2 else kw.get("expected_codes")
+        if exp is None:
+            raise Unclassified("login: self.command without expected codes")
+        return c.args[0], codes(exp), kw.get("censor_after")
+
+    if not body:
+        raise Unclassified("login: empty body")
+    a0, expected, cen0 = command_call(body[0])
+    if cen0 is not None:
+        raise Unclassified("login: the first command passes censor_after")
+    first_prefix, first_arg = lit_plus_param(a0)
+    loops = [i for i, st in enumerate(body) if isinstance(st, ast.While)]
+    if len(loops) != 1:
+        raise Unclassified("login: expected exactly one while loop")
+    wi = loops[0]
+    loop = body[wi]
+    t = loop.test
+    if not (
+        isinstance(t, ast.Call) and src(t.func) == "code.matches" and len(t.args) == 1 and not t.keywords
+        and isinstance(t.args[0], ast.Constant) and isinstance(t.args[0].value, str) and not loop.orelse
+    ):
+        raise Unclassified(f"login: loop condition {src(t)[:60]} (expected code.matches('MASK'))")
+    mask = t.args[0].value
+    lbody = list(loop.body)
+    if len(lbody) < 2:
+        raise Unclassified("login: loop body too short")
+    cmd_e, expected2, cen = command_call(lbody[-1])
+    if expected2 != expected:
+        raise Unclassified("login: the loop's command expects other codes than the first command")
+    if not isinstance(cmd_e, ast.Name):
+        raise Unclassified("login: the loop's command is not a variable")
+    cmd_var = cmd_e.id
+    if cen is None:
+        censor_var = None
+    elif isinstance(cen, ast.Name):
+        censor_var = cen.id
+    else:
+        raise Unclassified(f"login: censor_after={src(cen)[:40]} is not a variable")
+
+    def censor_bind(st):
+        if censor_var is not None and isinstance(st, ast.Assign) and len(st.targets) == 1 and isinstance(st.targets[0], ast.Name) and st.targets[0].id == censor_var:
+            return const(st.value)
+        return None
+
+    # between the first command and the loop: only constant bindings of the censor variable
+    init = None
+    for st in body[1:wi]:
+        v = censor_bind(st)
+        if v is None:
+            raise Unclassified(f"login: unexpected statement before the loop: {src(st)[:60]}")
+        init = v
+    # after the loop: nothing may touch the variables any more (and the loop is over anyway)
+    for st in body[wi + 1 :]:
+        for m in ast.walk(st):
+            if isinstance(m, ast.Name) and m.id in ("password", cmd_var, censor_var):
+                raise Unclassified(f"login: statement after the loop mentions {m.id}")
+    mid = lbody[:-1]
+    reset = None
+    if censor_bind(mid[0]) is not None:
+        reset = censor_bind(mid[0])
+        mid = mid[1:]
+    if len(mid) != 1 or not isinstance(mid[0], ast.If):
+        raise Unclassified("login: expected [reset;] if-ladder; self.command(...) in the loop body")
+    branches = []
+    node = mid[0]
+    while True:
+        c = node.test
+        if not (
+            isinstance(c, ast.Compare) and len(c.ops) == 1 and isinstance(c.ops[0], ast.Eq) and src(c.left) == "code"
+            and isinstance(c.comparators[0], ast.Constant) and isinstance(c.comparators[0].value, str)
+        ):
+            raise Unclassified(f"login: branch condition {src(c)[:60]} (expected code == 'NNN')")
+        prefix = arg = None
+        bcen = None
+        for st in node.body:
+            v = censor_bind(st)
+            if v is not None:
+                bcen = v
+            elif isinstance(st, ast.Assign) and len(st.targets) == 1 and isinstance(st.targets[0], ast.Name) and st.targets[0].id == cmd_var and prefix is None:
+                prefix, arg = lit_plus_param(st.value)
+            else:
+                raise Unclassified(f"login: unexpected statement in a branch: {src(st)[:60]}")
+        if prefix is None:
+            raise Unclassified("login: a branch does not build the command")
+        branches.append((c.comparators[0].value, prefix, arg, bcen))
+        if len(node.orelse) == 1 and isinstance(node.orelse[0], ast.If):
+            node = node.orelse[0]
+            continue
+        if not (len(node.orelse) == 1 and isinstance(node.orelse[0], ast.Raise)):
+            raise Unclassified("login: the ladder's else is not a single raise")
+        break
+    if censor_var is not None and reset is None and init is None and any(b[3] is None for b in branches):
+        raise Unclassified("login: the censor variable may be unbound when the command is sent")
+    return {
+        "first": ("", first_prefix, first_arg, None),
+        "expected": expected,
+        "mask": mask,
+        "init": init,
+        "reset": reset,
+        "branches": branches,
+    }
+
+
+def login_program_fallback():
+    """emitted when login() has another shape: a program on which login_prog_ok computes false"""
+    return {"first": ("", "", "ArgPassword", None), "expected": [], "mask": "", "init": None, "reset": None, "branches": []}
+
+
+def coq_login_program(lp):
+    def br(b):
+        code, prefix, arg, cen = b
+        return "{| lb_code := %s; lb_prefix := %s; lb_arg := %s; lb_censor := %s |}" % (
+            emit.text(code), emit.text(prefix), arg, "None" if cen is None else f"Some ({emit.z(cen)})")
+
+    oz = lambda v: "None" if v is None else f"Some ({emit.z(v)})"
+    return (
+        "{|\n  lp_first := %s;\n  lp_expected := %s;\n  lp_loop_mask := %s;\n  lp_init_censor := %s;\n  lp_reset := %s;\n  lp_branches := %s\n|}"
+        % (br(lp["first"]), emit.lst(emit.text(c) for c in lp["expected"]), emit.text(lp["mask"]), oz(lp["init"]), oz(lp["reset"]),
+           emit.lst(br(b) for b in lp["branches"]))
+    )
+
+
 def client_password_uses(mod):
     """every read of a Name `password` in client.py: (enclosing function, shape)"""
     out = []
@@ -942,6 +1136,10 @@ def generate(src_dir):
         ],
     ) + secret_raises(cl, [("BaseClient.command", ["command", "message", "raw"]), (f"{lf['class']}.login", ["password", "cmd"])])
     pw_uses = client_password_uses(cl)
+    try:
+        lp, lp_why = client_login_program(cl), ""
+    except Unclassified as e:
+        lp, lp_why = None, str(e)
 
     out = emit.HEADER.format(src=str(src_dir))
     out += "From Coq Require Import String.\nFrom Verif Require Import Lib.LogFacts.\nOpen Scope string_scope.\n\n"
@@ -984,6 +1182,11 @@ def generate(src_dir):
     out += f"Definition login_pass_prefix : list Z := {emit.text(lf['prefix'])}.\n"
     out += f"Definition login_pass_censor_after : Z := {emit.z(lf['censor_after'])}.\n"
     out += f"Definition login_forwards_censor_after : bool := {emit.boolean(lf['forwards'])}.\n"
+    out += "\n(* Client.login as a program: first command, loop mask, per-iteration reset of censor_after, one branch per reply code *)\n"
+    if lp is None:
+        out += "(* NOT TRANSLATED: " + lp_why.replace("*)", "* )").replace("(*", "( *") + " *)\n"
+    out += f"Definition login_program_translated : bool := {emit.boolean(lp is not None)}.\n"
+    out += f"Definition login_program : login_prog := {coq_login_program(lp or login_program_fallback())}.\n"
     out += "Definition client_password_uses : list (string * string) := " + emit.lst(f"({S(a)}, {S(b)})" for a, b in pw_uses) + ".\n\n"
     out += "(* raise statements built from a password-bearing local, in the functions that hold one *)\n"
     out += "Definition secret_raise_sites : list (string * string) := " + emit.lst(f"({S(a)}, {S(b)})" for a, b in raises) + ".\n"
